@@ -113,6 +113,34 @@ def disturb(ta, pre) -> None:
             pass
 
 
+def frac_twin(case: Dict[str, Any], call, **kw):
+    """The same trace with every time divided by 8 (dyadic fractions of a microsecond), loaded with the documented
+    option HTA_DISABLE_NS_ROUNDING=1, handed to `call(ta)`. Whatever `call` returns is the result; an exception is
+    returned as {"raises": ...}. Used for metamorphic comparisons: durations scale by 1/8, ratios do not change."""
+    import copy
+    import os
+    c2 = copy.deepcopy({"ranks": case["ranks"]})
+    for ev in c2["ranks"].values():
+        for e in ev:
+            if isinstance(e, dict):
+                if "ts" in e:
+                    e["ts"] = e["ts"] / 8.0
+                if "dur" in e:
+                    e["dur"] = e["dur"] / 8.0
+    os.environ["HTA_DISABLE_NS_ROUNDING"] = "1"
+    files = None
+    try:
+        files = htaio.write_case(c2)
+        ta = htaio.load(files, ctor=case.get("ctor"), **kw)
+        return call(ta)
+    except Exception as e:  # noqa: BLE001
+        return {"raises": "sub-microsecond twin: " + exc_name(e) + ": " + str(e)[:80]}
+    finally:
+        os.environ.pop("HTA_DISABLE_NS_ROUNDING", None)
+        if files:
+            htaio.remove_case_dir(files)
+
+
 def load_case(case: Dict[str, Any], **kw):
     files = htaio.write_case(case, gz=kw.pop("gz", False))
     try:
